@@ -23,6 +23,7 @@ type c01level struct {
 	parent int  // index, -1 for the root
 	url    string
 	pct    int // > 0: declared as allocation_percentage of its parent (max and window derive from it)
+	cost   bool // fixed_window_custom_counter: every request carries its own cost (header x-cost)
 }
 
 type c01state struct {
@@ -75,14 +76,21 @@ func (m *c01model) roll(l *c01level, grp string, t int64) *c01state {
 }
 
 // step applies one sequential request and returns the model's verdict.
-func (m *c01model) step(levels []c01level, target int, grp string, t int64) bool {
+func (m *c01model) step(levels []c01level, target int, grp string, t int64, cost int64) bool {
 	for i := target; i >= 0; i = levels[i].parent {
 		l := &levels[i]
+		if cost > l.max {
+			// a request that alone costs more than the maximum is refused and leaves the
+			// quota as it was: it does not open a new window either
+			if st := m.st[c01key(l, grp)]; st == nil || t-st.start >= int64(l.win) {
+				return false
+			}
+		}
 		s := m.roll(l, grp, t)
-		if s.count+1 > l.max {
+		if s.count+cost > l.max {
 			return false
 		}
-		s.count++
+		s.count += cost
 	}
 	return true
 }
@@ -121,11 +129,24 @@ func runC01(s *kernel.Sim) {
 		}
 		nLevels = 3
 	}
+	// one of the other runs in six: custom-counter quotas - every request carries its
+	// own cost, what a window admits is the sum of the costs; some requests cost more
+	// than the whole maximum
+	costMode := !pctMode && tp.Chance(1, 6)
+	if costMode {
+		for i := range levels {
+			levels[i].cost = true
+			levels[i].max = int64(tp.Range(3, 9))
+		}
+	}
 	nOps := tp.Range(5, 40)
 	burstP := tp.Choose(4) // 0: never
+	if costMode {
+		burstP = 0
+	}
 	siteOn, density := lockSites(tp)
 	s.Knobs["levels"] = fmt.Sprintf("%+v", levels)
-	s.Knobs["ops"], s.Knobs["burst"], s.Knobs["lock_sites"] = nOps, burstP, density
+	s.Knobs["ops"], s.Knobs["burst"], s.Knobs["lock_sites"], s.Knobs["custom_counter"] = nOps, burstP, density, costMode
 
 	files := map[string]string{"quotas/quota.yaml": c01QuotaYAML(levels)}
 	for i, l := range levels {
@@ -361,13 +382,18 @@ func runC01(s *kernel.Sim) {
 		target := tp.Choose(nLevels)
 		grp := groups[tp.Choose(len(groups))]
 		id, h := issue(target, grp)
+		cost := int64(1)
+		if costMode {
+			cost = int64(tp.Range(1, int(levels[target].max)+3))
+			h["x-cost"] = fmt.Sprint(cost)
+		}
 		out := env.doRequest(reqMsg(id, "GET", "a.com", fmt.Sprintf("/l%d", target), h))
 		if out.Err != nil {
 			s.Violate("R1", "execute-error", "ExecuteFlow returned an error: %v", out.Err)
 			break
 		}
 		admitted := !out.Early
-		s.Event("request", id, levels[target].id, grp, fmt.Sprint(admitted))
+		s.Event("request", id, levels[target].id, grp, fmt.Sprint(admitted), fmt.Sprint(cost))
 		if admitted {
 			for i := target; i >= 0; i = levels[i].parent {
 				if !counted(id, &levels[i], grp) {
@@ -386,7 +412,7 @@ func runC01(s *kernel.Sim) {
 			if !m.alive {
 				continue
 			}
-			v := m.step(levels, target, grp, t)
+			v := m.step(levels, target, grp, t, cost)
 			verdicts = append(verdicts, fmt.Sprintf("%s=%v", m.name, v))
 			if v != admitted {
 				m.alive = false
@@ -453,8 +479,15 @@ func c01QuotaYAML(levels []c01level) string {
 		if l.win%time.Minute == 0 {
 			unit, n = "minute", int64(l.win/time.Minute)
 		}
-		fmt.Fprintf(&b, "%s  strategy:\n%s    fixed_window:\n%s      max: %d\n%s      interval: %d\n%s      interval_unit: %s\n",
-			indent, indent, indent, l.max, indent, n, indent, unit)
+		kind := "fixed_window"
+		if l.cost {
+			kind = "fixed_window_custom_counter"
+		}
+		fmt.Fprintf(&b, "%s  strategy:\n%s    %s:\n%s      max: %d\n%s      interval: %d\n%s      interval_unit: %s\n",
+			indent, indent, kind, indent, l.max, indent, n, indent, unit)
+		if l.cost {
+			fmt.Fprintf(&b, "%s      counter_value_path: '$.request.headers[\"x-cost\"]'\n", indent)
+		}
 		if l.group {
 			fmt.Fprintf(&b, "%s      group_by_header: x-grp\n", indent)
 		}
